@@ -74,13 +74,16 @@ def gen(rng, tier):
                 trailing = _h1_req(tags[1], absolute=rng.random() < 0.15) + (_h1_req(tags[2]) if kind == "plain_pipelined" else b"")
                 truth.update(proto="h1", version="1.1", expect=[tags[0], tags[1]] + ([tags[2]] if kind == "plain_pipelined" else []))
             elif kind in ("h2c", "h2c_settings"):
-                st = b"" if kind == "h2c" else fb.settings({3: 100, 4: 65535 + rng.randrange(1000)})[9:]
+                # (small: HTTP2-Settings leaves stream 1 a window of a few bytes; the SETTINGS frame of the client's preface - often in a later
+                #  read than the request - raises it, and that growth is all the credit stream 1 ever gets)
+                small = kind == "h2c_settings" and rng.random() < 0.4
+                st = b"" if kind == "h2c" else fb.settings({3: 100, 4: rng.choice([1, 3, 7]) if small else 65535 + rng.randrange(1000)})[9:]
                 # (header names repeated on several lines: every line is a client byte that has to make it across the switch)
                 opening = _h1_req(tags[0], extra=b"X-Dup: one\r\nCookie: a=1\r\nConnection: Upgrade, HTTP2-Settings\r\nUpgrade: h2c\r\nX-Dup: two\r\nHTTP2-Settings: %s\r\nCookie: b=2\r\n" %
                                   base64.urlsafe_b64encode(st).rstrip(b"="), absolute=rng.random() < 0.3)
                 truth["h2c_headers"] = [(b"x-dup", b"one"), (b"cookie", b"a=1"), (b"x-dup", b"two"), (b"cookie", b"b=2")]
-                trailing = client_preface(fb, {}) + _h2_req(fb, 3, tags[1], body)
-                reactor = {"kind": "h2", "credit": "auto", "skip_h1_101": True}
+                trailing = client_preface(fb, {"initial_window": 70000} if small else {}) + _h2_req(fb, 3, tags[1], body)
+                reactor = {"kind": "h2", "credit": "none" if small else "auto", "skip_h1_101": True}
                 truth.update(proto="h2c", version="2", expect={tags[0]: 1, tags[1]: 3})
             elif kind == "not_get_with_ws_fields":
                 # only a GET opens a WebSocket: the same fields on another method are an ordinary HTTP/1.1 request (body and all)
